@@ -332,6 +332,7 @@ class LineFault:
     """sys.monitoring failpoint: raises at the k-th statement start inside the target code objects."""
 
     TOOL = 3
+    loop_headers = set()
 
     def __init__(self, codes, k, kind):
         self.codes, self.k, self.kind = codes, k, kind
@@ -354,6 +355,7 @@ class LineFault:
         import inspect
 
         out = set()
+        self_headers = LineFault.loop_headers
         for c in codes:
             try:
                 src, first = inspect.getsourcelines(c)
@@ -362,13 +364,30 @@ class LineFault:
             import textwrap
 
             tree = ast.parse(textwrap.dedent("".join(src)))
+            compound = (ast.For, ast.While, ast.With, ast.Try, ast.If, ast.FunctionDef, ast.AsyncFor, ast.AsyncWith)
+
+            def has_call(n):
+                return any(isinstance(x, (ast.Call, ast.Await)) for x in ast.walk(n))
+
             for node in ast.walk(tree):
-                if isinstance(node, ast.stmt):
-                    own = [n for n in ast.walk(node) if isinstance(n, (ast.Call, ast.Await))] if not isinstance(
-                        node, (ast.For, ast.While, ast.With, ast.Try, ast.If, ast.FunctionDef)) else [1]
-                    if own:
-                        for ln in range(node.lineno, (node.end_lineno or node.lineno) + 1) if not isinstance(node, (ast.For, ast.While, ast.With, ast.Try, ast.If, ast.FunctionDef)) else [node.lineno]:
-                            out.add((c.co_filename, first + ln - 1))
+                if not isinstance(node, ast.stmt):
+                    continue
+                if isinstance(node, (ast.For, ast.AsyncFor, ast.While)):
+                    # the loop header itself is a delivery point (back-edge poll): recorded separately
+                    self_headers.add((c.co_filename, first + node.lineno - 1))
+                    continue
+                if isinstance(node, compound):
+                    hdr = []
+                    if isinstance(node, ast.If):
+                        hdr = [node.test]
+                    elif isinstance(node, (ast.With, ast.AsyncWith)):
+                        hdr = [i.context_expr for i in node.items]
+                    if any(has_call(h) for h in hdr):
+                        out.add((c.co_filename, first + node.lineno - 1))
+                    continue
+                if has_call(node):
+                    for ln in range(node.lineno, (node.end_lineno or node.lineno) + 1):
+                        out.add((c.co_filename, first + ln - 1))
         return out
 
     def describe(self):
@@ -424,7 +443,8 @@ class LineFault:
         self.count += 1
         prev, self.prev = self.prev, (code.co_filename, line)
         if self.k is not None and self.count == self.k:
-            if prev is not None and prev not in self.call_lines:
+            here = (code.co_filename, line)
+            if here not in self.loop_headers and prev is not None and prev not in self.call_lines:
                 # the previously executed statement cannot deliver an asynchronous exception at its end
                 self.skipped_not_interruptible = 1
                 self.k = None
